@@ -1,13 +1,413 @@
 import CuqiVerif.Model.C09
-import Mathlib.Tactic.Ring
+import CuqiVerif.Proofs.C09
+import Mathlib.Data.List.Nodup
+import Mathlib.Data.List.Count
+import Mathlib.Data.Fintype.Pi
+import Mathlib.Algebra.BigOperators.Group.Finset.Basic
+import Mathlib.Algebra.BigOperators.Ring.Finset
+import Mathlib.Algebra.BigOperators.Group.Finset.Sigma
+import Mathlib.Algebra.Field.Basic
 
+/-!
+# C09 — Gibbs sweeps draw each block from its conditional given the current other blocks
+
+All theorems of the first two sections are about the executable definitions of
+`CuqiVerif/Model/C09.lean` (the ones `Driver/C09.lean` runs), for every list of names, every
+value type, every assignment of sampler kinds and step counts and every stream of transitions.
+The last section is the measure-level statement on a finite product space.
+-/
 namespace CuqiVerif.C09
+
+set_option linter.unusedSectionVars false
 
 variable {N V : Type} [DecidableEq N]
 
-/-- a block update leaves the values of all other blocks untouched -/
-theorem blockUpdate_cur_other (ds : Nat → Draw V) (g : HG N V) (n m : N) (h : m ≠ n) :
-    (blockUpdate ds g n).cur m = g.cur m := by
-  simp [blockUpdate, upd, h]
+/-! ## HybridGibbs -/
+
+/-- **Where in the log the update of block `n` sits**: the events of one sweep are those of the
+    blocks before `n`, then the events of `n` computed from the state reached after those blocks,
+    then the rest. -/
+theorem sweep_log_block (ds : Nat → Draw V) (g : HG N V) (pre post : List N) (n : N)
+    (hn : g.names = pre ++ n :: post) :
+    (sweep ds g).log = g.log ++ sweepEvs ds pre g ++ blockEvs ds (sweepL ds pre g) n
+        ++ sweepEvs ds post (sweepL ds (pre ++ [n]) g) := by
+  rw [sweep_eq_sweepL, sweepL_log, hn]
+  have : pre ++ n :: post = pre ++ ([n] ++ post) := by simp
+  rw [this, sweepEvs_append, sweepEvs_append]
+  simp [sweepEvs, sweepL_append, List.append_assoc]
+
+/-- **sweep_targets** — the target handed to block `n` (the conditioning dictionary recorded in its
+    `visit` event, see `blockEvs`) fixes every other block `m` at its value *after* this sweep if `m`
+    comes before `n` in `par_names` (already updated), and at its value *before* this sweep if it
+    comes after `n`. -/
+theorem sweep_targets (ds : Nat → Draw V) (g : HG N V) (pre post : List N) (n : N)
+    (hn : g.names = pre ++ n :: post) (hnd : g.names.Nodup) :
+    others g.names (sweepL ds pre g).cur n
+      = (g.names.filter (fun m => m != n)).map
+          (fun m => (m, if m ∈ pre then (sweep ds g).cur m else g.cur m)) := by
+  unfold others
+  apply List.map_congr_left
+  intro m _
+  by_cases hp : m ∈ pre
+  · simp only [hp, if_true]
+    rw [sweep_eq_sweepL, hn, sweepL_append]
+    have hdis : m ∉ n :: post := by
+      rw [hn] at hnd
+      exact fun h => (List.disjoint_of_nodup_append hnd) hp h
+    rw [sweepL_cur_of_not_mem _ _ _ _ hdis]
+  · simp only [hp, if_false]
+    rw [sweepL_cur_of_not_mem ds pre g m hp]
+
+example : others [0, 1, 2] (sweepL (fun i => ⟨i + 5, true⟩) [0]
+      (construct [0, 1, 2] (fun _ => none) (fun _ => (1 : Nat)) (fun _ => (false, false, false)))).cur 1
+    = [(0, 5), (2, 1)] := by decide
+
+/-- **sweep_visits_all** — one sweep begins the update of every block exactly once, in `par_names`
+    order (no hypothesis on the names). -/
+theorem sweep_visits_all (ds : Nat → Draw V) (g : HG N V) :
+    visits (sweep ds g).log = visits g.log ++ g.names := by
+  rw [sweep_eq_sweepL, sweepL_log, visits_append, visits_sweepEvs]
+
+/-- **block_steps_eq_config** — in one sweep the sampler of block `n` makes exactly
+    `num_sampling_steps[n]` transitions … -/
+theorem block_steps_eq_config (ds : Nat → Draw V) (g : HG N V) (n : N) (hn : n ∈ g.names)
+    (hnd : g.names.Nodup) :
+    stepCount n (sweep ds g).log = stepCount n g.log + g.nsteps n := by
+  rw [sweep_eq_sweepL, sweepL_log, stepCount_append, stepCount_sweepEvs,
+    List.count_eq_one_of_mem hnd hn, Nat.one_mul]
+
+/-- … they are fed by consecutive draws: the block's new value is the point reached from the
+    prologue state by the draws `pos₀ + Σ_{m before n} steps m, …` -/
+theorem block_result_is_iterated_kernel (ds : Nat → Draw V) (g : HG N V) (pre : List N) (n : N) :
+    let g1 := sweepL ds pre g
+    (sweepL ds (pre ++ [n]) g).cur n
+        = (stepEnd ds (g.nsteps n) (g.pos + (pre.map g.nsteps).sum) (startSmp g1 n)).currentPoint := by
+  simp [sweepL_append, blockUpdate_cur, upd, sweepL_pos]
+
+/-- the whole sweep consumes `Σ steps` draws -/
+theorem sweep_draws (ds : Nat → Draw V) (g : HG N V) :
+    (sweep ds g).pos = g.pos + (g.names.map g.nsteps).sum := by
+  rw [sweep_eq_sweepL, sweepL_pos]
+
+/-- the constructor leaves every sampler at its block's initial value -/
+theorem sync_construct (names : List N) (nsteps : N → Option Int) (init : N → V)
+    (flags : N → Bool × Bool × Bool) : Sync (construct names nsteps init flags) := by
+  intro m; simp [construct, Smp.initialize]
+
+/-- **block_starts_at_current** — at every block update of every sweep of every call sequence the
+    sampler starts (after the save / `reinitialize` / restore dance, NUTS path included) from the
+    block's current value: the value stored by the previous update of that block, or the initial
+    point. -/
+theorem block_starts_at_current (ds : Nat → Draw V) (names : List N) (nsteps : N → Option Int)
+    (init : N → V) (flags : N → Bool × Bool × Bool) (calls : List Nat) (pre : List N) (n : N) :
+    let g := calls.foldl (fun g c => sampleN ds c g) (construct names nsteps init flags)
+    (startSmp (sweepL ds pre g) n).currentPoint = (sweepL ds pre g).cur n := by
+  intro g
+  have hs : Sync g := by
+    have : ∀ (cs : List Nat) (g0 : HG N V), Sync g0 → Sync (cs.foldl (fun g c => sampleN ds c g) g0) := by
+      intro cs
+      induction cs with
+      | nil => intro g0 h; exact h
+      | cons c cs ih => intro g0 h; exact ih _ (sync_sampleN ds c g0 h)
+    exact this calls _ (sync_construct names nsteps init flags)
+  rw [startSmp, prologue_point]
+  exact sync_sweepL ds pre g hs n
+
+/-- the handed target really is the one recorded: after the prologue the sampler's target is the
+    joint conditioned on the current other blocks -/
+theorem block_target_is_set (g : HG N V) (n : N) :
+    (startSmp g n).target = others g.names g.cur n := prologue_target _ _
+
+/-- **stored_is_post_sweep** — `k` sweeps append `k` tuples, the `j`-th being the tuple of block
+    values after the `j`-th sweep. -/
+theorem stored_is_post_sweep (ds : Nat → Draw V) (k : Nat) (g : HG N V) :
+    (sampleN ds k g).stored
+      = g.stored ++ (List.range k).map (fun j => tuple g.names (sampleN ds (j + 1) g).cur) := by
+  induction k with
+  | zero => simp [sampleN]
+  | succ k ih =>
+    rw [List.range_succ, List.map_append, ← List.append_assoc, ← ih]
+    simp [store, sweep_eq_sweepL, sampleN_succ']
+
+/-- **continue_eq_uninterrupted** — two calls of `a` and `b` sweeps are one call of `a + b` sweeps
+    (same stream of transitions): the second call resumes from the last stored values. -/
+theorem continue_eq_uninterrupted (ds : Nat → Draw V) (a b : Nat) (g : HG N V) :
+    sampleN ds (a + b) g = sampleN ds b (sampleN ds a g) := sampleN_add ds a b g
+
+/-- after any run the current values are the last stored tuple -/
+theorem current_is_last_stored (ds : Nat → Draw V) (k : Nat) (g : HG N V) :
+    (sampleN ds (k + 1) g).stored.getLast? = some (tuple g.names (sampleN ds (k + 1) g).cur) := by
+  rw [sampleN_succ']
+  simp [store, sweep_eq_sweepL]
+
+/-! ### the cached target evaluation -/
+
+section cache
+variable [DecidableEq V]
+
+/-- **cache_fresh (NUTS)** — after the prologue the cached log-density/gradient of a NUTS block
+    is that of the handed target at the current point. -/
+theorem cache_fresh_nuts (s : Smp N V) (tgt : List (N × V)) (h : s.isNuts = true) :
+    (s.prologue tgt).CacheFresh = true := by
+  unfold Smp.prologue Smp.CacheFresh
+  by_cases hc : s.hasCache <;> simp [h, hc, Smp.initialize]
+
+/-- **cache_fresh (samplers without a cached evaluation)**: Conjugate, ConjugateApprox, Direct,
+    LinearRTO, RegularizedLinearRTO, UGLA. -/
+theorem cache_fresh_plain (s : Smp N V) (tgt : List (N × V)) (h : s.hasCache = false)
+    (h' : s.cacheInState = false) : (s.prologue tgt).CacheFresh = true := by
+  unfold Smp.prologue Smp.CacheFresh
+  by_cases hn : s.isNuts <;> simp [h, h', hn, Smp.initialize]
+
+/-- a sampler that would recompute instead of restoring its cache starts from an evaluation at its
+    *initial* point: fresh only if it sits there -/
+theorem cache_recomputed_at_initial_point (s : Smp N V) (tgt : List (N × V)) (hn : s.isNuts = false)
+    (h : s.hasCache = true) (h' : s.cacheInState = false) :
+    (s.prologue tgt).cache = some ⟨tgt, s.initialPoint⟩ := by
+  unfold Smp.prologue
+  simp [h, h', hn, Smp.initialize]
+
+/-- **cache_fresh_partial / hybrid_gibbs_stale_cache** — for MH, CWMH, ULA, MALA, PCN (cache in
+    `_STATE_KEYS`, restored by `set_state`): if the sampler's cache was fresh for its previous
+    target, it is fresh for the handed target **iff the handed target is the previous one**
+    (no other block has moved since this block's last update).  The `←` direction is what can be
+    proved of the code; the `→` direction is the defect. -/
+theorem cache_fresh_restored_iff (s : Smp N V) (tgt : List (N × V)) (hn : s.isNuts = false)
+    (h : s.hasCache = true) (h' : s.cacheInState = true)
+    (hf : s.cache = some ⟨s.target, s.currentPoint⟩) :
+    (s.prologue tgt).CacheFresh = true ↔ s.target = tgt := by
+  unfold Smp.prologue Smp.CacheFresh
+  simp [h, h', hn, hf, Smp.initialize]
+
+/-- an accepted transition leaves a fresh cache (for the target the block was handed) -/
+theorem step_accept_cache_fresh (s : Smp N V) (d : Draw V) (h : d.acc = true) :
+    (s.step d).CacheFresh = true := by
+  unfold Smp.step Smp.CacheFresh
+  by_cases hc : s.hasCache <;> simp [h, hc]
+
+/-- a rejected transition keeps cache, target and point -/
+theorem step_reject_cache (s : Smp N V) (d : Draw V) (h : d.acc = false) :
+    (s.step d).CacheFresh = s.CacheFresh := by
+  unfold Smp.step Smp.CacheFresh
+  simp [h]
+
+/-- freshly constructed samplers have a fresh cache -/
+theorem construct_cache_fresh (names : List N) (nsteps : N → Option Int) (init : N → V)
+    (flags : N → Bool × Bool × Bool) (n : N) :
+    ((construct names nsteps init flags).smp n).CacheFresh = true := by
+  unfold Smp.CacheFresh
+  by_cases hc : (flags n).2.1 <;> simp [construct, Smp.initialize, hc]
+
+end cache
+
+/-- two blocks; block 0 exact (no cache), block 1 an MH-like sampler; every draw accepted -/
+def exG : HG Nat Nat :=
+  construct [0, 1] (fun _ => none) (fun _ => 1) (fun n => if n = 1 then (false, true, true) else (false, false, false))
+def exDs : Nat → Draw Nat := fun i => ⟨i + 5, true⟩
+
+/-- **hybrid_gibbs_stale_cache_counterexample** — already in the first sweep, after block 0 moved
+    from 1 to 5, the MH-like block 1 starts with the evaluation of the target conditioned on
+    block 0 = 1 while it is handed the target conditioned on block 0 = 5.  With the NUTS path
+    (`exGn`) the same situation gives a fresh cache. -/
+theorem hybrid_gibbs_stale_cache_counterexample :
+    (startSmp (blockUpdate exDs exG 0) 1).cache = some ⟨[(0, 1)], 1⟩
+    ∧ (startSmp (blockUpdate exDs exG 0) 1).target = [(0, 5)]
+    ∧ (startSmp (blockUpdate exDs exG 0) 1).CacheFresh = false := by decide
+
+example : (startSmp (blockUpdate exDs
+    (construct [0, 1] (fun _ => none) (fun _ => 1) (fun n => if n = 1 then (true, true, true) else (false, false, false))) 0) 1).CacheFresh = true := by decide
+
+/-! ## legacy Gibbs -/
+
+/-- **legacy: one transition from the current value** — the `x0`-then-`sample(2)` hack returns
+    exactly the first transition from `x0`. -/
+theorem legacy_kernel_one_transition (x0 d : V) : legacyKernel x0 d = d := rfl
+
+/-- **legacy block event** — block `n` gets a fresh sampler on the joint conditioned on the current
+    other blocks, started at the block's current value, advanced once (draw number `pos`). -/
+theorem legacy_block (ds : Nat → V) (names : List N) (cur : N → V) (pos : Nat) (log : List (LEv N V)) (n : N) :
+    lblock ds names (cur, pos, log) n
+      = (upd cur n (ds pos), pos + 1, log ++ [LEv.step n (others names cur n) (cur n) (ds pos)]) := rfl
+
+/-- **legacy_sweep_targets** — same statement as `sweep_targets` for legacy `Gibbs.step`. -/
+theorem legacy_sweep_targets (ds : Nat → V) (names pre post : List N) (n : N)
+    (st : (N → V) × Nat × List (LEv N V)) (hn : names = pre ++ n :: post) (hnd : names.Nodup) :
+    others names (lsweepL ds names pre st).1 n
+      = (names.filter (fun m => m != n)).map
+          (fun m => (m, if m ∈ pre then (lsweep ds names st).1 m else st.1 m)) := by
+  subst hn
+  unfold others
+  apply List.map_congr_left
+  intro m _
+  by_cases hp : m ∈ pre
+  · simp only [hp, if_true]
+    have hdis : m ∉ n :: post := fun h => (List.disjoint_of_nodup_append hnd) hp h
+    have : lsweep ds (pre ++ n :: post) st
+        = lsweepL ds (pre ++ n :: post) (n :: post) (lsweepL ds (pre ++ n :: post) pre st) := by
+      rw [lsweep_eq_lsweepL]
+      exact lsweepL_append ds _ pre (n :: post) st
+    rw [this, lsweepL_cur_of_not_mem _ _ _ _ _ hdis]
+  · simp only [hp, if_false]
+    rw [lsweepL_cur_of_not_mem ds _ pre st m hp]
+
+/-- **legacy_visits_all** — one legacy sweep advances every block exactly once, in order, each by
+    one draw. -/
+theorem legacy_visits_all (ds : Nat → V) (names : List N) (st : (N → V) × Nat × List (LEv N V)) :
+    lvisits (lsweep ds names st).2.2 = lvisits st.2.2 ++ names
+    ∧ (lsweep ds names st).2.1 = st.2.1 + names.length := by
+  rw [lsweep_eq_lsweepL]
+  exact ⟨lsweepL_visits ds names names st, lsweepL_pos ds names names st⟩
+
+/-- **legacy_stored_is_post_sweep** — the loop `for i in range(at, at+k)` over freshly allocated
+    (zero) columns overwrites exactly those columns with the post-sweep tuples, in order; columns
+    stored by earlier calls are kept. -/
+theorem legacy_stored_is_post_sweep (ds : Nat → V) (names : List N) (w : Bool) (k : Nat)
+    (A : List (N → V)) (z : N → V) (st : (N → V) × Nat × List (LEv N V)) :
+    (lloop ds names w k A.length (A ++ List.replicate k z) st).1 = A ++ (lrun ds names w k A.length st).1
+    ∧ (lloop ds names w k A.length (A ++ List.replicate k z) st).2 = (lrun ds names w k A.length st).2 :=
+  lloop_eq ds names w k A z st
+
+/-- the `j`-th column produced by `k` sweeps is the tuple of values after `j + 1` sweeps -/
+theorem legacy_column (ds : Nat → V) (names : List N) (w : Bool) (k i j : Nat)
+    (st : (N → V) × Nat × List (LEv N V)) (hj : j < k) :
+    (lrun ds names w k i st).1[j]? = some (lrun ds names w (j + 1) i st).2.1 :=
+  lrun_get ds names w k i j st hj
+
+/-- **legacy_continue_eq_uninterrupted_partial** — `sample(a)` followed by `sample(b)` is `sample(a+b)`
+    (no warm-up in either; same stream), *provided the first call stored at least one column*
+    (`a ≥ 1`; for `a = 0` see the counterexample below). -/
+theorem legacy_continue_eq_uninterrupted_partial (ds : Nat → V) (g : LG N V) (a b : Nat) (ha : 1 ≤ a)
+    (hw : g.warm = none) (hs : g.samples = none) :
+    (lsample ds g a 0).bind (fun g' => lsample ds g' b 0) = lsample ds g (a + b) 0 :=
+  lsample_continue ds g a b ha hw hs
+
+/-- **legacy_continue_after_warmup_only_counterexample** — `sample(0, 2)` then `sample(1)` raises
+    `IndexError` although two warm-up tuples are stored. -/
+theorem legacy_continue_after_warmup_only_counterexample :
+    (match lsample (fun i => i + 5) (lconstruct [0, 1] (fun _ => none) (fun _ => 1) (fun _ => 0) : LG Nat Nat) 0 2 with
+     | .ok g' => (g'.warm.map List.length, g'.samples.map List.length,
+                  match lsample (fun i => i + 5) g' 1 0 with | .error e => some e | .ok _ => none)
+     | .error _ => (none, none, none)) = (some 2, some 0, some LErr.indexError) := by decide
+
+/-! ## invariance on a finite product space -/
+
+section invariance
+open Finset
+
+variable {ι : Type} [DecidableEq ι] [Fintype ι] {α : ι → Type} [∀ i, Fintype (α i)] [∀ i, DecidableEq (α i)]
+variable {R : Type} [CommSemiring R]
+
+/-- the (unnormalised) weight `π` is invariant under the transition matrix `K` -/
+def Invariant {X : Type} [Fintype X] (π : X → R) (K : X → X → R) : Prop := ∀ y, ∑ x, π x * K x y = π y
+
+/-- composition of transition matrices (first `K`, then `L`) -/
+def kcomp {X : Type} [Fintype X] (K L : X → X → R) : X → X → R := fun x z => ∑ y, K x y * L y z
+
+/-- identity transition -/
+def kid {X : Type} [DecidableEq X] : X → X → R := fun x y => if x = y then 1 else 0
+
+/-- `m` transitions of `K` -/
+def kpow {X : Type} [Fintype X] [DecidableEq X] (K : X → X → R) : Nat → X → X → R
+  | 0 => kid
+  | m + 1 => kcomp K (kpow K m)
+
+theorem Invariant.comp {X : Type} [Fintype X] {π : X → R} {K L : X → X → R}
+    (hK : Invariant π K) (hL : Invariant π L) : Invariant π (kcomp K L) := by
+  intro z
+  unfold kcomp
+  calc ∑ x, π x * ∑ y, K x y * L y z
+      = ∑ x, ∑ y, π x * K x y * L y z := by
+        apply Finset.sum_congr rfl; intro x _; rw [Finset.mul_sum]
+        apply Finset.sum_congr rfl; intro y _; rw [mul_assoc]
+    _ = ∑ y, ∑ x, π x * K x y * L y z := Finset.sum_comm
+    _ = ∑ y, π y * L y z := by
+        apply Finset.sum_congr rfl; intro y _; rw [← Finset.sum_mul, hK y]
+    _ = π z := hL z
+
+theorem Invariant.id {X : Type} [Fintype X] [DecidableEq X] (π : X → R) : Invariant π (kid (R := R)) := by
+  intro y; simp [kid]
+
+theorem Invariant.pow {X : Type} [Fintype X] [DecidableEq X] {π : X → R} {K : X → X → R}
+    (hK : Invariant π K) (m : Nat) : Invariant π (kpow K m) := by
+  induction m with
+  | zero => exact Invariant.id π
+  | succ m ih => exact hK.comp ih
+
+/-- The transition of the whole state induced by a block kernel: only coordinate `i` moves, from
+    `x i` to `y i`, with the probability `k c (x i) (y i)` the block sampler assigns when handed the
+    context `c = y` (which agrees with `x` on all other coordinates — the "most recent values of
+    the other blocks"). -/
+def blockKernel (i : ι) (k : (∀ j, α j) → α i → α i → R) : (∀ j, α j) → (∀ j, α j) → R :=
+  fun x y => if (∀ j, j ≠ i → x j = y j) then k y (x i) (y i) else 0
+
+/-- the block kernel `k` is invariant for the full conditional of `π` it is handed: for every
+    context `c`, `a ↦ π (c with block i := a)` is invariant under `k c` -/
+def CondInvariant (π : (∀ j, α j) → R) (i : ι) (k : (∀ j, α j) → α i → α i → R) : Prop :=
+  ∀ (c : ∀ j, α j) (b : α i), ∑ a, π (Function.update c i a) * k c a b = π (Function.update c i b)
+
+theorem sum_block (f : (∀ j, α j) → R) (y : ∀ j, α j) (i : ι) :
+    ∑ x, (if ∀ j, j ≠ i → x j = y j then f x else 0) = ∑ a, f (Function.update y i a) := by
+  rw [← Finset.sum_filter]
+  have : Finset.filter (fun x : ∀ j, α j => ∀ j, j ≠ i → x j = y j) Finset.univ
+      = Finset.image (fun a => Function.update y i a) Finset.univ := by
+    ext x
+    simp only [Finset.mem_filter, Finset.mem_univ, true_and, Finset.mem_image]
+    constructor
+    · intro h
+      refine ⟨x i, ?_⟩
+      funext j
+      by_cases hj : j = i
+      · subst hj; simp
+      · simp [Function.update_of_ne hj, h j hj]
+    · rintro ⟨a, rfl⟩ j hj
+      simp [Function.update_of_ne hj]
+  rw [this, Finset.sum_image]
+  intro a _ b _ h
+  simpa using congrFun h i
+
+/-- **block update leaves the joint invariant** -/
+theorem blockKernel_invariant (π : (∀ j, α j) → R) (i : ι) (k : (∀ j, α j) → α i → α i → R)
+    (hk : CondInvariant π i k) : Invariant π (blockKernel i k) := by
+  intro y
+  unfold blockKernel
+  have : ∀ x : ∀ j, α j, π x * (if ∀ j, j ≠ i → x j = y j then k y (x i) (y i) else 0)
+      = if ∀ j, j ≠ i → x j = y j then π x * k y (x i) (y i) else 0 := by
+    intro x; split <;> simp
+  simp only [this]
+  rw [sum_block (fun x => π x * k y (x i) (y i)) y i]
+  simpa using hk y (y i)
+
+/-- the sweep kernel: for each block of the list in turn, `steps i` transitions of its block kernel -/
+def sweepKernel (ks : ∀ i, (∀ j, α j) → α i → α i → R) (steps : ι → Nat) : List ι → (∀ j, α j) → (∀ j, α j) → R
+  | [] => kid
+  | i :: l => kcomp (kpow (blockKernel i (ks i)) (steps i)) (sweepKernel ks steps l)
+
+/-- **gibbs_invariant_fintype** — on a finite product space, for every weight `π`, every list of
+    blocks (any order, repetitions allowed) and every per-block number of transitions: if every
+    block kernel is invariant for the full conditional it is handed, the sweep leaves `π`
+    invariant; so does any number of sweeps. -/
+theorem gibbs_invariant_fintype (π : (∀ j, α j) → R) (ks : ∀ i, (∀ j, α j) → α i → α i → R)
+    (steps : ι → Nat) (l : List ι) (hk : ∀ i ∈ l, CondInvariant π i (ks i)) :
+    Invariant π (sweepKernel ks steps l) := by
+  induction l with
+  | nil => exact Invariant.id π
+  | cons i l ih =>
+    exact ((blockKernel_invariant π i (ks i) (hk i (by simp))).pow (steps i)).comp
+      (ih (fun j hj => hk j (by simp [hj])))
+
+theorem gibbs_run_invariant (π : (∀ j, α j) → R) (ks : ∀ i, (∀ j, α j) → α i → α i → R)
+    (steps : ι → Nat) (l : List ι) (hk : ∀ i ∈ l, CondInvariant π i (ks i)) (nsweeps : Nat) :
+    Invariant π (kpow (sweepKernel ks steps l) nsweeps) :=
+  (gibbs_invariant_fintype π ks steps l hk).pow nsweeps
+
+/-- an exact block sampler (draws from the normalised full conditional, whatever the start) is
+    `CondInvariant`: non-vacuity of the hypothesis, over a field -/
+theorem exact_sampler_condInvariant {F : Type} [Field F] (π : (∀ j, α j) → F) (i : ι)
+    (hpos : ∀ c : ∀ j, α j, ∑ a, π (Function.update c i a) ≠ 0) :
+    CondInvariant π i (fun c _ b => π (Function.update c i b) / ∑ a, π (Function.update c i a)) := by
+  intro c b
+  rw [← Finset.sum_mul, mul_div_assoc', mul_comm, mul_div_assoc, div_self (hpos c), mul_one]
+
+end invariance
 
 end CuqiVerif.C09
